@@ -369,7 +369,10 @@ class C01(MergeFamProp):
         ]
 
     def gen_docs(self, rng, tier):
-        return [{'raw': G.gen_doc(rng, self.VOCAB, self.DEPTH, self.PTAG)}]
+        d = {'raw': G.gen_doc(rng, self.VOCAB, self.DEPTH, self.PTAG)}
+        if rng.random() < 0.5:
+            d['auto'] = True       # handed over the way Config.build(src) does by default: raw_yaml=None (file name or YAML text is guessed)
+        return [d]
 
     def gen_cases(self, rng, n, tier):
         cases = super().gen_cases(rng, n, tier)
